@@ -136,6 +136,19 @@ def enumerate_cases(tier: str):
         for length in range(1, depth + 1):
             for combo in itertools.product(ENUM_ALPHABET, repeat=length):
                 yield {"version": version, "registry": {}, "ops": [["rx", line] for line in combo], "mode": "steps"}
+    # the gateway's version changes mid-history (firmware update, or the first report after a start): traffic of every
+    # kind under the first version, the report, then traffic of every kind again (incl. types only the new version knows)
+    traffic = ["4;255;0;0;17;2.0\n", "4;1;0;0;6;t\n", "4;1;1;0;0;20\n", "4;1;2;0;0;\n", "4;255;3;0;0;55\n", "4;255;3;0;11;s\n", "4;255;3;0;12;1\n", "4;255;3;0;22;7\n", "4;255;3;0;32;500\n",
+               "4;255;3;0;21;\n", "4;255;4;0;0;00\n", "9;255;3;0;22;7\n", "9;255;3;0;21;\n", "9;255;3;0;32;1\n", "9;1;1;0;0;1\n", "9;255;3;0;0;5\n", "4;1;1;1;2;1\n"]
+    reports = (None, "1.4", "1.5.1", "2.0.0", "2.1.1", "2.2.0")
+    for first in reports:
+        for then in reports[1:]:
+            if first == then:
+                continue
+            for form in ("0;255;3;0;2;{}\n", "0;255;0;0;18;{}\n"):
+                lines = ([] if first is None else [form.format(first)]) + traffic + [form.format(then)] + traffic
+                for mode in ("fresh", "persistent"):
+                    yield {"version": None, "registry": {}, "ops": [["rx", line] for line in lines], "mode": "steps", "listen_mode": mode}
 
 
 def _nontrivial(case: dict) -> bool:
